@@ -17,6 +17,9 @@ macro_rules! registry {
             "C21" => dispatch!($action, props::c21::C21, $ctx, $path),
             "C02" => dispatch!($action, props::c02::C02, $ctx, $path),
             "C04" => dispatch!($action, props::c04::C04, $ctx, $path),
+            "C31" => dispatch!($action, props::c31::C31, $ctx, $path),
+            "C32" => dispatch!($action, props::c32::C32, $ctx, $path),
+            "C33" => dispatch!($action, props::c33::C33, $ctx, $path),
             _ => {
                 eprintln!("unknown property {}", $id);
                 2
